@@ -556,6 +556,13 @@ def coefficient_ops(T):
                            qutip.coefficient(d["samples"], tlist=d["tlist"])(0.3), qutip.QobjEvo([qutip.qeye(2), d["c"]])(0.3)))
 
 
+def _quiet(fn):
+    import warnings as _w
+    with _w.catch_warnings():
+        _w.simplefilter("ignore")
+        return fn()
+
+
 def _start_step(solver, state):
     solver.start(state, 0.0)
     return [solver.step(0.3), solver.step(0.7)]
@@ -590,6 +597,12 @@ def solver_ops(T, tier, fmts):
                     lambda d: qutip.sesolve(d["H"], d["psi"], d["tlist"], options=d["options"]).states, targets=(), detail={"fmt": fmt, "method": method})
             T.check(f"SESolver-start-unnormalised:{fmt}/{method}", {"H": H0, "psi": (0.3 + 0.4j) * psi, "options": {"method": method, "progress_bar": ""}},
                     lambda d: _start_step(qutip.SESolver(d["H"], options=d["options"]), d["psi"]), targets=(), detail={"fmt": fmt, "method": method})
+        # keywords of the previous major version that are still accepted (with a warning) are merged into the solver's options,
+        # not into the dictionary the caller handed over
+        T.check(f"mesolve-deprecated-keyword:{fmt}", {"H": H0, "rho": qutip.ket2dm(psi), "tlist": np.linspace(0, 1.2, 7), "c_ops": list(c), "options": {"store_states": True, "atol": 1e-9}},
+                lambda d: _quiet(lambda: qutip.mesolve(d["H"], d["rho"], d["tlist"], d["c_ops"], options=d["options"], progress_bar=False).states), targets=(), detail={"fmt": fmt})
+        T.check(f"smesolve-deprecated-keyword:{fmt}", {"H": H0, "rho": qutip.ket2dm(psi), "tlist": np.linspace(0, 0.3, 4), "sc_ops": [c[0]], "options": {"store_states": True, "dt": 0.05}},
+                lambda d: _quiet(lambda: qutip.smesolve(d["H"], d["rho"], d["tlist"], sc_ops=d["sc_ops"], options=d["options"], ntraj=1, seeds=3, store_measurement=True).states), targets=(), detail={"fmt": fmt})
         # ---- mesolve / MESolver: H forms x c_op forms x state forms, Liouvillian forms
         c_forms = {"qobj": lambda: list(c), "none": lambda: [], "single": lambda: c[0], "qobjevo": lambda: [qutip.QobjEvo([c[0], f_sin], args={"w": 0.5}), c[1]],
                    "super": lambda: [qutip.lindblad_dissipator(c[0]), c[1]], "super_evo": lambda: [qutip.QobjEvo([qutip.lindblad_dissipator(c[0]), f_sin], args={"w": 0.5})]}
